@@ -25,6 +25,9 @@ with the regression witnesses at the end of this file:
 * F-C10-2 (`C10_stale_initial_witness`): a derived whose fetcher reads a MEMO reused the future created
   in its constructor although the memo had changed before the task's first poll (`already_dirty` only
   sees signals).
+* F-C10-3 = F-C04-5 (`C10_stale_registration_witness`): a `SuspenseContext` registered by a read or an
+  `.await` under a boundary, and the task ids taken for it, outlived the reader (its owner cleaned up, its
+  future dropped): the boundary fell back during the next reload of a value nothing below it read any more.
 -/
 namespace Leptos.Async
 
